@@ -93,6 +93,7 @@ class Part:
     nderiv: int
     mode: str            # "custom" | "vertex" | "exact"
     has_cond: bool = False
+    ftabs: list = field(default_factory=list)
     entity_cell: str = ""
 
 
@@ -182,7 +183,7 @@ def programs_of_form(form, form_index, scalar, exact_ok=True, diagonal=False, la
         sid = -1 if sid == "otherwise" else sid
         parts = []
         for itg in idata.integrals:
-            tf = Treeifier(coef_index, const_index)
+            tf = Treeifier(coef_index, const_index, complex_mode=cx)
             tree = tf.tree(lower_integrand(itg.integrand(), cx))
             md = itg.metadata()
             ecell = (cell if idata.integral_type == "cell" else
@@ -210,6 +211,7 @@ def programs_of_form(form, form_index, scalar, exact_ok=True, diagonal=False, la
             parts.append(Part(tree, tf.aleaves, tf.cleaves, pts, wts, tf.uses_normal, tf.max_deriv, mode))
             parts[-1].degree = deg
             parts[-1].has_cond = tf.has_cond
+            parts[-1].ftabs = tf.ftabs
         progs.append(Program(form_index, idata.integral_type, sid, cell, tdim, gdim, len(arguments), scalar,
                              spaces, args, cnames, [spaces[n].dim for n in cnames],
                              [int(np.prod(c.ufl_shape, dtype=int)) for c in consts], coord, parts,
@@ -278,7 +280,10 @@ class Oracle:
         return len(self.confs)
 
     def case(self, cidx: int, x, w, c) -> int:
-        self.cases.append({"conf": cidx, "x": x, "w": w, "c": c})
+        conf = self.confs[cidx - 1]
+        prog = self.progs[conf["prog"] - 1]
+        ftab = [function_tables(prog, part, cpart, x, w, c) for part, cpart in zip(prog.parts, conf["parts"])]
+        self.cases.append({"conf": cidx, "x": x, "w": w, "c": c, "ftab": ftab})
         return len(self.cases)
 
     def dump(self):
@@ -600,7 +605,7 @@ def enumerate_formspace(chk=None, facets=False, exprs=False, complex_terms=False
         return _FS_CACHE[2]
     if facets:
         return _FS_CACHE[1]
-    return [c for c in _FS_CACHE[0] if complex_terms or c["term"] != "cplx"]     # 'cplx' needs a complex scalar type
+    return [c for c in _FS_CACHE[0] if complex_terms or c["term"] not in ("cplx", "cmathfn")]   # need a complex scalar type
 
 
 _NDOF = {"P1": 1, "P2": 3, "P3": 6, "DG0": 0.4, "DG1": 1, "vP1": 2.5, "vP2": 7, "symP1": 3, "TH": 8, "RT1": 1, "N1": 1.5,
@@ -715,7 +720,7 @@ def run_items(chk, items, nworkers=4, module_size=8):
                 if e[0] == "ok":
                     A = np.array([complex(a, b) for a, b in m["A"]])
                     rec["bad"] = compare(A, e[1], m["scalar"], m["nops"], float(e[2]),
-                                         items[ids[m["item"]]].get("extra_tol", 0.0))
+                                         items[ids[m["item"]]].get("extra_tol", 0.0) + 4 * FN_DELTA * m.get("nftab", 0))
                     rec["amp"] = float(e[2])
                     rec["nonzero"] = any(x[0] != 0 or x[1] != 0 for row in e[1] for x in row)
                     rec["expected"] = e[1]
@@ -890,11 +895,12 @@ def programs_of_expression(expr, points, scalar, label=""):
     import itertools
     for idx in itertools.product(*[range(n) for n in shape]):
         comp = low[idx] if idx else low
-        tf = Treeifier(coef_index, const_index, {a.number(): i for i, a in enumerate(arguments)})
+        tf = Treeifier(coef_index, const_index, {a.number(): i for i, a in enumerate(arguments)}, complex_mode=cx)
         tree = tf.tree(lower_integrand(comp, cx))
         pt = Part(tree, tf.aleaves, tf.cleaves, pts, [Fr(1)] * len(pts), tf.uses_normal, tf.max_deriv, "custom")
         pt.degree = 0
         pt.has_cond = tf.has_cond
+        pt.ftabs = tf.ftabs
         parts.append(pt)
     return [Program(0, "expression", -1, cell, tdim, gdim, len(arguments), scalar, spaces, args, cnames,
                     [spaces[n].dim for n in cnames], [int(np.prod(c.ufl_shape, dtype=int)) for c in consts],
@@ -991,7 +997,7 @@ class NumbaModule:
         return {"rank": f.rank, "num_coefficients": f.num_coefficients,
                 "original_coefficient_positions": list(f.original_coefficient_positions or [])[:f.num_coefficients],
                 "num_constants": f.num_constants,
-                "constant_shapes": [list(s_) for s_ in (f.constant_shapes or [])],
+                "constant_shapes": [list(s_) if s_ is not None else [] for s_ in (f.constant_shapes or [])],
                 "form_integral_offsets": list(f.form_integral_offsets),
                 "form_integral_ids": list(f.form_integral_ids),
                 "domains": [int(i.domain) for i in f.form_integrals],
@@ -1016,3 +1022,142 @@ def c_descriptor(mod: Module, k):
             "domains": [int(f.form_integrals[i].domain) for i in range(nint)],
             "enabled": [[int(f.form_integrals[i].enabled_coefficients[j]) for j in range(no)] for i in range(nint)],
             "needs_perm": [bool(f.form_integrals[i].needs_facet_permutations) for i in range(nint)]}
+
+
+# ---------------------------------------------------------------------------
+# transcendental functions: exact rational argument (computed here from the same tabulations), libm value,
+# handed to Fem.tla as a table per point.  Only argument-free sub-trees of a restricted shape are supported.
+
+FN_DELTA = 2.0 ** -12    # function values are rounded to multiples of 2^-12 (dyadic: denominators do not multiply up)
+
+
+def _pyeval(t, q, prog, cpart, x, w, c, fvals):
+    """Exact value (complex of Fractions as (re, im)) of an argument-free tree at point q."""
+    k = t["t"]
+    Z = (Fr(0), Fr(0))
+
+    def mul(a, b):
+        return (a[0] * b[0] - a[1] * b[1], a[0] * b[1] + a[1] * b[0])
+
+    if k == "num":
+        return (Fr(*t["re"]), Fr(*t["im"]))
+    if k == "sum":
+        vs = [_pyeval(a, q, prog, cpart, x, w, c, fvals) for a in t["a"]]
+        return (sum(v[0] for v in vs), sum(v[1] for v in vs))
+    if k == "prod":
+        r = (Fr(1), Fr(0))
+        for a in t["a"]:
+            r = mul(r, _pyeval(a, q, prog, cpart, x, w, c, fvals))
+        return r
+    if k == "div":
+        a, b = _pyeval(t["a"], q, prog, cpart, x, w, c, fvals), _pyeval(t["b"], q, prog, cpart, x, w, c, fvals)
+        m = b[0] * b[0] + b[1] * b[1]
+        if m == 0:
+            raise OutOfModel("division by zero in a function argument")
+        return mul(a, (b[0] / m, -b[1] / m))
+    if k == "pow" and t["e"] >= 0:
+        r = (Fr(1), Fr(0))
+        a = _pyeval(t["a"], q, prog, cpart, x, w, c, fvals)
+        for _ in range(t["e"]):
+            r = mul(r, a)
+        return r
+    if k == "conj":
+        a = _pyeval(t["a"], q, prog, cpart, x, w, c, fvals)
+        return (a[0], -a[1])
+    if k == "real":
+        return (_pyeval(t["a"], q, prog, cpart, x, w, c, fvals)[0], Fr(0))
+    if k == "imag":
+        return (_pyeval(t["a"], q, prog, cpart, x, w, c, fvals)[1], Fr(0))
+    if k == "const":
+        v = c[t["k"]][t["c"]]
+        return (Fr(v[0]), Fr(v[1]))
+    if k == "x":
+        s_ = 1 if t["r"] == "-" else 0
+        sub = prog.spaces[prog.coord].subs[0]
+        tab = cpart["tabs"][prog.raw_names[repr(sub["raw"])][0]][s_][0][q]
+        return (sum(Fr(x[s_][n][t["c"]]) * Fr(*tab[n][0]) for n in range(len(tab))), Fr(0))
+    if k == "cl":
+        lf = cpart["cleaves"][t["id"] - 1]
+        if lf["d"]:
+            raise OutOfModel("function of a coefficient derivative")
+        sp = prog.spaces[prog.coefs[lf["k"]]]
+        cm = sp.cmap[lf["c"]]
+        sub = sp.subs[cm[0] - 1]
+        if sub["map"] != "identity":
+            raise OutOfModel("function of a Piola-mapped coefficient")
+        s_ = 1 if lf["r"] == "-" else 0
+        tab = cpart["tabs"][prog.raw_names[repr(sub["raw"])][0]][s_][0][q]
+        re = im = Fr(0)
+        for n in range(sub["nn"]):
+            wv = w[lf["k"]][s_][sub["off"] + n * sub["bs"] + cm[1]]
+            phi = Fr(*tab[n][cm[2]])
+            re += wv[0] * phi
+            im += wv[1] * phi
+        return (re, im)
+    if k == "ftab":
+        return fvals[t["id"] - 1][q]
+    raise OutOfModel(f"node {k} inside a function argument")
+
+
+def _libm(fn, args, cx):
+    import cmath
+    import math as m
+
+    z = [complex(float(a[0]), float(a[1])) for a in args]
+    if cx and any(v.imag != 0 for v in z):
+        table = {"sqrt": cmath.sqrt, "exp": cmath.exp, "ln": cmath.log, "cos": cmath.cos, "sin": cmath.sin, "tan": cmath.tan, "cosh": cmath.cosh,
+                 "sinh": cmath.sinh, "tanh": cmath.tanh, "acos": cmath.acos, "asin": cmath.asin, "atan": cmath.atan}
+        if fn == "pow":
+            return z[0] ** z[1]
+        if fn not in table:
+            raise OutOfModel(f"{fn} of a complex argument")
+        return table[fn](z[0])
+    r = [v.real for v in z]
+    if fn == "pow":
+        if r[0] <= 0:
+            raise OutOfModel("real power of a non-positive number")
+        return complex(r[0] ** r[1])
+    if fn == "atan2":
+        return complex(m.atan2(r[0], r[1]))
+    if fn in ("bessel_j", "bessel_y"):
+        import ctypes
+        import ctypes.util
+        lm = ctypes.CDLL(ctypes.util.find_library("m"))
+        f = lm.jn if fn == "bessel_j" else lm.yn
+        f.restype, f.argtypes = ctypes.c_double, (ctypes.c_int, ctypes.c_double)
+        if fn == "bessel_y" and r[1] <= 0:
+            raise OutOfModel("Bessel Y of a non-positive number")
+        return complex(f(int(r[0]), r[1]))
+    if fn.startswith("bessel_"):
+        raise OutOfModel("modified Bessel functions have no C counterpart")
+    if fn == "ln" and r[0] <= 0:
+        raise OutOfModel("ln of a non-positive number")
+    if fn in ("acos", "asin") and abs(r[0]) > 1:
+        raise OutOfModel("acos/asin outside [-1, 1]")
+    if fn == "sqrt":
+        return cmath.sqrt(z[0])
+    table = {"exp": m.exp, "ln": m.log, "cos": m.cos, "sin": m.sin, "tan": m.tan, "cosh": m.cosh, "sinh": m.sinh,
+             "tanh": m.tanh, "acos": m.acos, "asin": m.asin, "atan": m.atan, "erf": m.erf}
+    return complex(table[fn](r[0]))
+
+
+def function_tables(prog, part, cpart, x, w, c):
+    """[function node][point] -> [[re_n, re_d], [im_n, im_d]] for one part of one case."""
+    if not part.ftabs:
+        return []
+    nq = len(cpart["wts"])
+    cx = prog.scalar.startswith("complex")
+    fvals, out = [], []
+    for ft in part.ftabs:
+        row, jrow = [], []
+        for q in range(nq):
+            args = [_pyeval(a, q, prog, cpart, x, w, c, fvals) for a in ft["args"]]
+            v = _libm(ft["fn"], args, cx)
+            if not (math.isfinite(v.real) and math.isfinite(v.imag)) or abs(v) > 1e4:
+                raise OutOfModel(f"{ft['fn']} value out of range")
+            re, im = Fr(round(v.real * 4096), 4096), Fr(round(v.imag * 4096), 4096)
+            row.append((re, im))
+            jrow.append([fr(re), fr(im)])
+        fvals.append(row)
+        out.append(jrow)
+    return out
